@@ -1411,11 +1411,18 @@ def _re_sub(interp, args, kwargs):
     return tokstr.re_sub(interp, args, kwargs)
 
 
+def _open(interp, args, kwargs):
+    from . import pbmodel
+
+    return pbmodel.open_model(interp, args, kwargs)
+
+
 def build_models():
     import re as _re
 
     M = {
         _re.sub: _re_sub,
+        builtins.open: _open,
         builtins.isinstance: _isinstance,
         builtins.type: _type,
         builtins.len: _len,
